@@ -214,18 +214,23 @@ PutField(mi, kind, ref, card, key, sel, oopt) ==
               key |-> IF card = "map" THEN key ELSE "", oneof |-> w.idx, anns |-> <<>>]
     IN [msgs EXCEPT ![mi] = [w.m EXCEPT !.fields = Append(@, f)]]
 
+\* proto3 wants the members of a oneof declared consecutively: an existing oneof can only be extended at the end
+OneofOpen(mi, sel) ==
+    LET m == msgs[mi]  S == {k \in 1..Len(m.oneofs) : m.oneofs[k].name = sel}
+    IN sel = "none" \/ S = {} \/ (m.fields # <<>> /\ m.fields[Len(m.fields)].oneof \in S)
+
 FieldShape(card, key, sel, oopt) ==
     /\ card \in Cards /\ key \in MapKeys /\ sel \in OneofSels /\ oopt \in OneofOpts
     /\ (card # "map" => key = "string") /\ (card # "single" => sel = "none") /\ (sel = "none" => oopt = "none")
 
 AddField(mi, kind, card, key, sel, oopt) ==
-    /\ CanFocus /\ Free /\ kind \in ScalarKinds /\ FieldShape(card, key, sel, oopt)
+    /\ CanFocus /\ Free /\ OneofOpen(mi, sel) /\ kind \in ScalarKinds /\ FieldShape(card, key, sel, oopt)
     /\ (card = "map" \/ key = "string")
     /\ msgs' = PutField(mi, kind, "", card, key, sel, oopt)
     /\ nf' = nf + 1 /\ UNCHANGED <<enums, phase, na, rec, machVars>>
 
 AddWkt(mi, w, card, sel, oopt) ==
-    /\ CanFocus /\ Free /\ w \in WktAtoms /\ FieldShape(card, "string", sel, oopt)
+    /\ CanFocus /\ Free /\ OneofOpen(mi, sel) /\ w \in WktAtoms /\ FieldShape(card, "string", sel, oopt)
     /\ msgs' = PutField(mi, "wkt", w, card, "string", sel, oopt)
     /\ nf' = nf + 1 /\ UNCHANGED <<enums, phase, na, rec, machVars>>
 
@@ -243,7 +248,7 @@ Reaches(ms, a, b) ==
     IN b \in R4
 
 AddMsgField(mi, target, parent, opt, card, sel, oopt) ==
-    /\ CanFocus /\ Free /\ FieldShape(card, "string", sel, oopt)
+    /\ CanFocus /\ Free /\ OneofOpen(mi, sel) /\ FieldShape(card, "string", sel, oopt)
     /\ target \in 1..(Len(msgs) + 1) /\ target # mi
     /\ IF target = Len(msgs) + 1
        THEN /\ Len(msgs) < MaxMsgs /\ parent \in 0..Len(msgs) /\ opt \in MsgOpts
@@ -260,6 +265,32 @@ AddRecursion(mi, form) ==
          [] form = "repeated" -> msgs' = PutField(mi, "message", msgs[mi].name, "repeated", "string", "none", "none")
          [] form = "optional" -> msgs' = PutField(mi, "message", msgs[mi].name, "optional", "string", "none", "none")
          [] form = "oneof" -> msgs' = PutField(mi, "message", msgs[mi].name, "single", "string", "choice", "expose")
+         [] form = "flatchild" ->     \* the ordinary use of flatten: a child message folded into its parent
+              /\ Len(msgs) < MaxMsgs
+              /\ LET t == Len(msgs) + 1
+                     inner == [name |-> "f1", kind |-> "string", ref |-> "", card |-> "single", key |-> "", oneof |-> 0, anns |-> <<>>]
+                     ms == PutField(mi, "message", MsgName(t), "single", "string", "none", "none")
+                     fi == Len(ms[mi].fields)
+                 IN msgs' = [ms EXCEPT ![mi].fields[fi].anns = <<[cls |-> "j5", arm |-> "object", var |-> "flatten", consistent |-> TRUE]>>]
+                            \o <<[NewMsg(t, 0, "none") EXCEPT !.fields = <<inner>>]>>
+         [] form = "flatclash" ->     \* ... whose field has the JSON name of a field of the parent
+              /\ Len(msgs) < MaxMsgs
+              /\ LET t == Len(msgs) + 1
+                     inner == [name |-> "clash", kind |-> "string", ref |-> "", card |-> "single", key |-> "", oneof |-> 0, anns |-> <<>>]
+                     ms0 == PutField(mi, "int32", "", "single", "string", "none", "none")
+                     ms1 == [ms0 EXCEPT ![mi].fields[Len(ms0[mi].fields)].name = "clash"]
+                     ms == [ms1 EXCEPT ![mi].fields = Append(@, [name |-> "f" \o ToString(Len(ms1[mi].fields) + 1), kind |-> "message",
+                                 ref |-> MsgName(t), card |-> "single", key |-> "", oneof |-> 0,
+                                 anns |-> <<[cls |-> "j5", arm |-> "object", var |-> "flatten", consistent |-> TRUE]>>])]
+                 IN msgs' = ms \o <<[NewMsg(t, 0, "none") EXCEPT !.fields = <<inner>>]>>
+         [] form = "oneofclash" ->    \* an exposed oneof whose lowerCamel name is the JSON name of a field
+              /\ \A k \in 1..Len(msgs[mi].oneofs) : msgs[mi].oneofs[k].name # "foo_bar"
+              /\ LET ms0 == PutField(mi, "string", "", "single", "string", "none", "none")
+                     ms1 == [ms0 EXCEPT ![mi].fields[Len(ms0[mi].fields)].name = "fooBar"]
+                     w == WithOneof(ms1[mi], "foo_bar", "expose")
+                     f == [name |-> "f" \o ToString(Len(ms1[mi].fields) + 1), kind |-> "string", ref |-> "", card |-> "single",
+                           key |-> "", oneof |-> w.idx, anns |-> <<>>]
+                 IN msgs' = [ms1 EXCEPT ![mi] = [w.m EXCEPT !.fields = Append(@, f)]]
          [] form = "mutual" ->
               /\ Len(msgs) < MaxMsgs
               /\ LET t == Len(msgs) + 1
@@ -291,7 +322,7 @@ AddEnum(parent, unspec, opt) ==
     /\ nf' = nf + 1 /\ UNCHANGED <<msgs, phase, na, rec, machVars>>
 
 AddEnumField(mi, target, parent, unspec, opt, card, sel, oopt) ==
-    /\ CanFocus /\ Free /\ FieldShape(card, "string", sel, oopt)
+    /\ CanFocus /\ Free /\ OneofOpen(mi, sel) /\ FieldShape(card, "string", sel, oopt)
     /\ target \in 1..(Len(enums) + 1)
     /\ IF target = Len(enums) + 1
        THEN /\ Len(enums) < MaxEnums /\ parent \in 0..Len(msgs) /\ opt \in EnumOpts
